@@ -166,8 +166,8 @@ Proof.
   { vm_compute. repeat (constructor; [reflexivity|]). constructor. }
   split; [|split].
   - apply sincr_NoDup. apply strict_sorted_sincr. vm_compute. reflexivity.
-  - eapply Forall_impl; [|exact Hsmall]. intros a Ha. unfold u64max, two64. lia.
-  - intros x y Hx Hy. rewrite Forall_forall in Hsmall. pose proof (Hsmall y Hy).
+  - eapply Forall_impl; [|exact Hsmall]. intros a Ha. cbv beta in Ha. unfold u64max, two64. lia.
+  - intros x y Hx Hy. rewrite Forall_forall in Hsmall. pose proof (Hsmall y Hy) as Hy200. cbv beta in Hy200.
     change (2 ^ 62 - 6) with 4611686018427387898. lia.
 Qed.
 
